@@ -5,7 +5,7 @@ UPDATE_ALL = [func("bt.core.StrategyBase.update", variant=v) for v in ("flat", "
 
 ID = "C09"
 META = {
-    "assumptions": ["A-REAL", "A-T", "A-IND", "A-DEEPCOPY", "A-DET", "A-DATA-NONE", "A-SOLVER", "A-ENGINE"],
+    "assumptions": ["A-REAL", "A-T", "A-IND", "A-DEEPCOPY", "A-DET", "A-SOLVER", "A-ENGINE"],
     "explanation": "The mechanism clauses of StrategyBase.update are proved on the real body for every node: a paper-traded sub-strategy's index is its paper copy's index (and the row records it); "
     "the paper copy - a separate tree whose root it is - is stepped exactly update(date); run(); update(date) on a new date and not at all otherwise; a root is never paper-stepped; nothing the "
     "parent does writes into the paper tree (frame); each strategy child's index is published in the parent's universe column at the current row. AST obligations: setup builds the paper copy "
@@ -21,7 +21,7 @@ MANIFEST_ENTRY = {
 
 
 def tasks(tier, seed):
-    return [*UPDATE_ALL, dict(kind="custom", module="props.misc_tasks", fn="c09_constants"), dict(kind="custom", module="props.c04_tasks", fn="setup_clauses")]
+    return [*UPDATE_ALL, func("bt.backtest.Backtest.run"), dict(kind="custom", module="props.misc_tasks", fn="c09_constants"), dict(kind="custom", module="props.c04_tasks", fn="setup_clauses")]
 
 
 def replay(o):
